@@ -192,7 +192,43 @@ fn run_fault_schedule_once(spec: &Spec) -> Option<Vec<(String, String)>> {
     })
 }
 
+/// PROXY protocol on, connection timeout 3 s: A sends its header only 2.4 s after it was accepted (then a
+/// handshake, or nothing) and stalls; shutdown is requested right after the header. The drain is bounded by the
+/// connection timeout counted from the moment A was accepted: listen() must have returned 3 s (+ 1 s allowance)
+/// after the accept, not later.
+fn run_late_header_once(spec: &Spec) -> Option<Vec<(String, String)>> {
+    run_local(async {
+        let mut v: Vec<(String, String)> = vec![];
+        let timeout = Duration::from_secs(3);
+        let cfg = ListenerCfg { timeout, proxy: Some((true, true)), ..Default::default() };
+        let running = start_listener(&cfg, NetAdapters::new()).await;
+        let Ok(mut c) = McClient::connect(running.addr, Some("127.0.0.2".parse().unwrap())).await else {
+            running.stop.cancel();
+            return None;
+        };
+        let accepted = Instant::now();
+        tokio::time::sleep(Duration::from_millis(2_400)).await;
+        let _ = c.send_raw(&proxy_v2("203.0.113.2:5555".parse().unwrap(), running.addr)).await;
+        if spec.a >= 1 {
+            let _ = c.send(&common::refs::codec::sb_handshake(769, "late.example", 25565, 2)).await;
+        }
+        tokio::time::sleep(Duration::from_millis(50)).await;
+        running.stop.cancel();
+        let mut done = running.done;
+        let left = (timeout + Duration::from_secs(1)).saturating_sub(accepted.elapsed());
+        match tokio::time::timeout(left, &mut done).await {
+            Ok(Ok(Ok(()))) => {}
+            Ok(other) => v.push(("listener-failed".into(), format!("{other:?}"))),
+            Err(_) => v.push(("shutdown-not-bounded-by-connection-timeout".into(), format!("a client that sent its PROXY header 2.4 s after it was accepted and then stalled kept listen() from returning until more than {:?} after the accept; the connection timeout is {timeout:?}", accepted.elapsed()))),
+        }
+        Some(v)
+    })
+}
+
 fn run_schedule_once(spec: &Spec) -> Option<Vec<(String, String)>> {
+    if spec.fault.as_deref() == Some("late-header-then-stalls") {
+        return run_late_header_once(spec);
+    }
     if spec.fault.is_some() {
         return run_fault_schedule_once(spec);
     }
@@ -452,6 +488,9 @@ pub fn run(cli: Cli) -> ! {
         for a in if thorough { vec![0usize, 1, 2, 3, 4, 5] } else { vec![3usize, 5] } {
             specs.push(Spec { a, b: usize::MAX, new_conn_at: 0, a_stalls: false, via_start: false, proxy: false, drain_ms: 0, fault: Some(fault.into()), no_deadline: false });
         }
+    }
+    for a in [0usize, 1] {
+        specs.push(Spec { a, b: usize::MAX, new_conn_at: 0, a_stalls: true, via_start: false, proxy: true, drain_ms: 0, fault: Some("late-header-then-stalls".into()), no_deadline: false });
     }
     // a drain that lasts longer than any built-in default (10 s): the configured timeout (30 s) is what bounds it
     specs.push(Spec { a: 5, b: usize::MAX, new_conn_at: 1, a_stalls: false, via_start: false, proxy: false, drain_ms: 11_500, fault: None, no_deadline: false });
